@@ -280,6 +280,209 @@ def _tar_loop_facts(fn, notes):
     return accepted, [name for _, name in sorted(events)], bypass
 
 
+# ---------------------------------------------------------------- ZIP / TAR: is the payload fetched through the tested entry?
+_HANDLE_ITERS = ("infolist", "getmembers")
+
+
+def _read_origin(fn, read_attrs):
+    """How do the payload reads of an archive member loop name the member they read?
+    -> ("handle" | "name" | "unknown", [source of every read site]).
+    A read site is a call `<archive>.<read_attrs>(ARG, ...)` on the object bound by `with <...>(...) as <archive>`.
+    ARG is traced back through the function: loop / comprehension targets (also tuple positions), single assignments,
+    `L.append((..))` into a list that is iterated later, `sorted / list / reversed / tuple(L)`.  "handle": ARG is the
+    very object the loop got from `infolist()` / `getmembers()` / iterating the archive; "name": it is a `.filename` /
+    `.name` attribute, a string, or the result of `getinfo` / `getmember`; anything else: "unknown"."""
+    withs = {}
+    for n in ast.walk(fn):
+        if isinstance(n, ast.With):
+            for it in n.items:
+                if isinstance(it.optional_vars, ast.Name):
+                    withs[it.optional_vars.id] = it.context_expr
+    # `with zf.open(info) as stream` binds a member handle, not an archive: its own read() names no member
+    arch = {v for v, e in withs.items() if not (isinstance(e, ast.Call) and isinstance(e.func, ast.Attribute)
+                                                and isinstance(e.func.value, ast.Name) and e.func.value.id in withs)}
+    binds, assigned, appends = [], {}, {}
+    for n in ast.walk(fn):
+        if isinstance(n, (ast.For, ast.comprehension)):
+            binds.append((n.target, n.iter))
+        if isinstance(n, ast.Assign) and len(n.targets) == 1 and isinstance(n.targets[0], ast.Name):
+            assigned.setdefault(n.targets[0].id, []).append(n.value)
+        if isinstance(n, ast.Call) and isinstance(n.func, ast.Attribute) and n.func.attr == "append" \
+                and isinstance(n.func.value, ast.Name) and len(n.args) == 1:
+            appends.setdefault(n.func.value.id, []).append(n.args[0])
+
+    visiting = set()
+
+    def combine(vs):
+        vs = list(vs)
+        if vs and all(v is None for v in vs):       # None: a name that is being resolved already (a cycle adds nothing)
+            return None
+        vs = [v for v in vs if v is not None]
+        if vs and all(v == "handle" for v in vs):
+            return "handle"
+        return "name" if "name" in vs else "unknown"
+
+    def of_iter(it, k, depth):
+        if depth > 8:
+            return "unknown"
+        if isinstance(it, ast.Call) and isinstance(it.func, ast.Attribute) and it.func.attr in _HANDLE_ITERS:
+            return "handle" if k is None else "unknown"
+        if isinstance(it, ast.Attribute) and it.attr == "filelist":
+            return "handle" if k is None else "unknown"
+        if isinstance(it, ast.Call) and isinstance(it.func, ast.Name) and it.func.id in ("sorted", "list", "reversed", "tuple") and it.args:
+            return of_iter(it.args[0], k, depth + 1)
+        if isinstance(it, ast.Name):
+            if it.id in arch:
+                return "handle" if k is None else "unknown"
+            elems = list(appends.get(it.id, []))
+            for v in assigned.get(it.id, []):
+                if isinstance(v, (ast.List, ast.Tuple)):
+                    elems += v.elts
+                elif isinstance(v, ast.ListComp):
+                    elems.append(v.elt)
+                elif not (isinstance(v, ast.Call) and not v.args):      # `x = []` / `x = list()` carry nothing
+                    return of_iter(v, k, depth + 1) if not elems else "unknown"
+            if not elems:
+                return "unknown"
+            out = []
+            for e in elems:
+                if k is None:
+                    out.append(of_expr(e, depth + 1))
+                elif isinstance(e, ast.Tuple) and k < len(e.elts):
+                    out.append(of_expr(e.elts[k], depth + 1))
+                else:
+                    out.append("unknown")
+            return combine(out)
+        return "unknown"
+
+    def of_expr(e, depth=0):
+        if depth > 8:
+            return "unknown"
+        if isinstance(e, ast.Attribute) and e.attr in ("filename", "name", "orig_filename", "path"):
+            return "name"
+        if isinstance(e, (ast.JoinedStr,)) or (isinstance(e, ast.Constant) and isinstance(e.value, str)):
+            return "name"
+        if isinstance(e, ast.Call) and isinstance(e.func, ast.Attribute) and e.func.attr in ("getinfo", "getmember"):
+            return "name"
+        if isinstance(e, ast.Name):
+            if e.id in visiting:
+                return None
+            visiting.add(e.id)
+            try:
+                return of_name(e, depth)
+            finally:
+                visiting.discard(e.id)
+        return "unknown"
+
+    def of_name(e, depth):
+        if True:
+            found = []
+            for tgt, it in binds:
+                if isinstance(tgt, ast.Name) and tgt.id == e.id:
+                    found.append(of_iter(it, None, depth + 1))
+                elif isinstance(tgt, ast.Tuple):
+                    for k, t in enumerate(tgt.elts):
+                        if isinstance(t, ast.Name) and t.id == e.id:
+                            found.append(of_iter(it, k, depth + 1))
+            for v in assigned.get(e.id, []):
+                found.append(of_expr(v, depth + 1))
+            return combine(found)
+        return "unknown"
+    sites = []
+    for n in ast.walk(fn):
+        if isinstance(n, ast.Call) and isinstance(n.func, ast.Attribute) and n.func.attr in read_attrs \
+                and isinstance(n.func.value, ast.Name) and n.func.value.id in arch:
+            arg = n.args[0] if n.args else next((k.value for k in n.keywords if k.arg in ("name", "member")), None)
+            sites.append((ast.unparse(n), "unknown" if arg is None else of_expr(arg)))
+    return combine(v for _, v in sites) or "unknown", [f"{src} -> {v}" for src, v in sites]
+
+
+# ---------------------------------------------------------------- 7z: does max_output reach EVERY stage of a coder chain?
+def _sz_bound_sites(rel):
+    """(site, does it hand `max_output` on UNCHANGED) for every place the output bound of a 7z folder passes through on
+    its way from extractall to the lzma decoder calls.  Deliberately strict: only the plain name `max_output` (for the
+    lzma calls also `-1 if max_output is None else max_output`) counts; a conditional, a re-binding of the parameter or
+    a return that does not mention it is `false`."""
+    def plain(e):
+        return isinstance(e, ast.Name) and e.id == "max_output"
+
+    def lzma_bound(e):
+        if plain(e):
+            return True
+        return isinstance(e, ast.IfExp) and ast.unparse(e.test) == "max_output is None" and ast.unparse(e.body) == "-1" and plain(e.orelse)
+
+    def rebinds(fn, allowed=()):
+        bad = False
+        for n in ast.walk(fn):
+            tg = []
+            if isinstance(n, ast.Assign):
+                tg = [(t, n.value) for t in n.targets]
+            elif isinstance(n, (ast.AugAssign, ast.AnnAssign)):
+                tg = [(n.target, n.value)]
+            elif isinstance(n, ast.NamedExpr):
+                tg = [(n.target, n.value)]
+            elif isinstance(n, (ast.For, ast.comprehension)):
+                tg = [(x, None) for x in ast.walk(n.target)]
+            for t, v in tg:
+                if isinstance(t, ast.Name) and t.id == "max_output":
+                    if not (v is not None and any(a(v) for a in allowed)):
+                        bad = True
+        return bad
+
+    def is_param(fn):
+        return any(a.arg == "max_output" for a in fn.args.args + fn.args.kwonlyargs)
+
+    def arg_of(call, pos, kw):
+        for k in call.keywords:
+            if k.arg == kw:
+                return k.value
+        return call.args[pos] if len(call.args) > pos else None
+
+    def calls(fn, attr):
+        return [n for n in ast.walk(fn) if isinstance(n, ast.Call) and isinstance(n.func, ast.Attribute) and n.func.attr == attr]
+    sites = []
+    # extractall: max_output is None or what _needed_output says, and goes to _decompress_folder as it is
+    ex = _find_func(rel, "SevenZipReader.extractall")
+    cs = calls(ex, "_decompress_folder")
+    ok = bool(cs) and all(plain(arg_of(c, 4, "max_output")) for c in cs) and not rebinds(ex, allowed=(
+        lambda v: isinstance(v, ast.Constant) and v.value is None,
+        lambda v: isinstance(v, ast.Call) and isinstance(v.func, ast.Attribute) and v.func.attr == "_needed_output"))
+    sites.append(("extractall -> _decompress_folder", ok))
+    # _decompress_folder: every _apply_decoder call inside the loop over the coders gets the parameter itself
+    df = _find_func(rel, "SevenZipReader._decompress_folder")
+    cs = calls(df, "_apply_decoder")
+    loops = [n for n in ast.walk(df) if isinstance(n, (ast.For, ast.While)) and any(c in list(ast.walk(n)) for c in cs)]
+    ok = bool(cs) and is_param(df) and not rebinds(df) and all(plain(arg_of(c, 4, "max_output")) for c in cs) and len(loops) >= 1 \
+        and not any(isinstance(x, ast.Subscript) for lp in loops if isinstance(lp, ast.For) for x in ast.walk(lp.iter))
+    sites.append(("_decompress_folder -> _apply_decoder (every stage)", ok))
+    # _apply_decoder: every return cuts at / hands on the parameter
+    ad = _find_func(rel, "SevenZipReader._apply_decoder")
+    clean = is_param(ad) and not rebinds(ad)
+    k = 0
+    for n in ast.walk(ad):
+        if isinstance(n, ast.Return):
+            k += 1
+            v = n.value
+            good = False
+            if isinstance(v, ast.Call):
+                good = any(plain(a) for a in v.args) or any(plain(kw.value) for kw in v.keywords)
+            elif isinstance(v, ast.IfExp):
+                good = ast.unparse(v.test) == "max_output is None" and isinstance(v.orelse, ast.Subscript) and \
+                    isinstance(v.orelse.slice, ast.Slice) and v.orelse.slice.upper is not None and plain(v.orelse.slice.upper) \
+                    and v.orelse.slice.lower is None
+            elif isinstance(v, ast.Subscript):
+                good = isinstance(v.slice, ast.Slice) and v.slice.upper is not None and plain(v.slice.upper) and v.slice.lower is None
+            sites.append((f"_apply_decoder return #{k}: {ast.unparse(v) if v is not None else 'None'}"[:90], clean and good))
+    if k == 0:
+        sites.append(("_apply_decoder has no return", False))
+    for name in ("_decompress_lzma", "_decompress_lzma2"):
+        fn = _find_func(rel, "SevenZipReader." + name)
+        cs = calls(fn, "decompress")
+        ok = bool(cs) and is_param(fn) and not rebinds(fn) and all(arg_of(c, 1, "max_length") is not None and lzma_bound(arg_of(c, 1, "max_length")) for c in cs)
+        sites.append((f"{name} -> LZMADecompressor.decompress", ok))
+    return sites
+
+
 @generator("C12Consts")
 def gen_c12():
     notes = []
@@ -401,6 +604,22 @@ def gen_c12():
     L.append("def tarLoopEvents : List String := " + lean_list(lean_str(e) for e in tar_events))
     L.append("/-- calls of TarFile.extract / extractall in _extract_from_tar_optimized (they would bypass the loop's tests) -/")
     L.append("def tarBypassCalls : List String := " + lean_list(lean_str(e) for e in tar_bypass) + "\n")
+
+    # ---- ZIP / TAR: the payload of the entry whose size was tested is read through THAT entry (not through its name)
+    zrb, zsites = _read_origin(_find_func(arel, "_extract_from_zip_optimized"), ("read", "open", "extract"))
+    trb, tsites = _read_origin(ftar, ("extractfile", "extract"))
+    L.append("/-- how the ZIP member loop names the member it reads (`zf.read(X)` / `zf.open(X)`): \"handle\" = X is the ZipInfo the "
+             "loop got from infolist() and tested, \"name\" = a name (resolves to the LAST entry carrying it), \"unknown\" -/")
+    L.append(f"def zipReadBy : String := {lean_str(zrb)}")
+    L.append("def zipReadSites : List String := " + lean_list(lean_str(x) for x in zsites))
+    L.append("/-- the same for `tf.extractfile(X)` in the TAR member loop -/")
+    L.append(f"def tarReadBy : String := {lean_str(trb)}")
+    L.append("def tarReadSites : List String := " + lean_list(lean_str(x) for x in tsites) + "\n")
+
+    # ---- 7z: the output bound on its way through a folder's coder chain
+    L.append("/-- (site, hands `max_output` on unchanged) from extractall down to the lzma decoder calls -/")
+    L.append("def szStageBoundSites : List (String × Bool) := " + lean_list(
+        f"({lean_str(a)}, {'true' if b else 'false'})" for a, b in _sz_bound_sites(EX + "util/sevenzip.py")) + "\n")
 
     # does the 7z path hand the filtered member list to the extraction step?
     f7 = _find_func(arel, "_extract_from_7z_optimized")
